@@ -37,7 +37,7 @@ def main():
                                        env=dict(os.environ, CARGO_TARGET_DIR=os.path.join(scratch, "target")),
                                        stdout=subprocess.PIPE, stderr=subprocess.STDOUT, text=True)
                     status.append("suite:%s" % ("pass" if p.returncode == 0 else "FAIL"))
-                env = dict(os.environ, CGV_REPO=repo, CGV_WORK=os.path.join(scratch, "work"))
+                env = dict(os.environ, CGV_REPO=repo, CGV_WORK=os.path.join(scratch, "work"), CGV_EVIDENCE_DIR=os.path.join(scratch, "evidence"))
                 p = subprocess.run([os.path.join(VERIF, "cgv"), m["property"], m.get("tier", "quick")], env=env, cwd=VERIF,
                                    stdout=subprocess.PIPE, stderr=subprocess.STDOUT, text=True)
                 out = p.stdout
